@@ -19,6 +19,8 @@ def obligations(tier):
     g4 = S.G4()
     obs.append(S.SOb('C02.valid[G4,n=2,tags=2,nbest=%d]' % (2 if q else 3), g4, 2, ([(1, 0)] if q else ()), pruning=2, penalty='sym', nbest=(2 if q else 3)))
     obs.append(S.SOb('C02.valid[G4,n=2,tags=2,nbest=1,prune=1]', g4, 2, pruning=1, penalty='sym'))
+    obs.append(S.SOb('C02.valid[G8,n=2,tags=2]', S.G8(), 2, pruning=2, penalty='sym'))
+    obs.append(S.SOb('C02.valid[G8,n=2,tags=2,nbest=2]', S.G8(), 2, pruning=2, penalty='sym', nbest=2))
     obs.append(S.SOb('C02.valid[G6,n=1,tags=4,prune=2]', S.G6(), 1, pruning=2, penalty='sym'))
     obs.append(S.SOb('C02.valid[G5,n=2,tags=2,prune=1]', S.G5(True), 2, pruning=1, penalty='0'))
     obs.append(S.SOb('C02.valid[G6,n=1,tags=4,nbest=2]', S.G6(), 1, ([(0, 3)] if q else ()), pruning=4, penalty='sym', nbest=2))
